@@ -189,7 +189,10 @@ func (a sinkAddr) String() string  { return string(a) }
 // (polling lookup → processCrossNodeForward → handleLocalBridgeWait | forwardToSourceNode →
 // CreateDedicatedConnection → TargetReady frame).  Reported: which endpoint received the frame.
 func (e *env) forward(n int, tid string) string {
-	st, err := e.tables[n].LookupWaitingTunnel(e.ctx, tid)
+	st, err, returned := e.guardedLookup(n, tid)
+	if !returned {
+		return "err:lookup_waits_for_the_one_in_flight"
+	}
 	if err != nil {
 		return errTok(err)
 	}
